@@ -314,4 +314,30 @@ example : teProg.eval dim (fun _ => 0) = 16274 ∧
       (fun _ => 0) = 16274 := by
   decide
 
+open Ptn.C04 Ptn.Ein in
+/-- **The padding hypothesis follows from the padded root TENSORS.**  `from_ttns` gives the ket and the bra copy of
+the state's root a tensor that vanishes off index `0` of the new root-bond axis (`padded_root_index`); for ANY
+strongly well-formed contractions `K`, `B` of the two copies in which that tensor is a leaf and the root-bond leg is
+still open, the dense vectors vanish off index `0` as well — `PaddedRoot`, the hypothesis of
+`trace_value_padded_root` and `ttndo_ttno_value_padded_root` (the root bond dimension is positive:
+`positivity_check` in `add_trivial_root`). -/
+theorem padded_root_of_tensors {R : Type} [CommSemiring R] (dim : Leg → Nat) (t : Ptn.C04.Tree)
+    (K B : Expr Leg R) (hK : K.SWF) (hB : B.SWF)
+    (hgK : Leg.gKet (Ttndo.ketTree t).id 0 ∈ K.free) (hgB : Leg.gBra (Ttndo.ketTree t).id 0 ∈ B.free)
+    (hkz : ∃ kl ∈ K.leaves, ∀ ρ : Asg Leg, ρ (Leg.gKet (Ttndo.ketTree t).id 0) ≠ 0 → kl.2 ρ = 0)
+    (hbz : ∃ bl ∈ B.leaves, ∀ ρ : Asg Leg, ρ (Leg.gBra (Ttndo.ketTree t).id 0) ≠ 0 → bl.2 ρ = 0)
+    (hdK : 0 < dim Ttndo.rootKetLeg) (hdB : 0 < dim Ttndo.rootBraLeg) :
+    Ttndo.PaddedRoot dim (Ttndo.ketTree t) K B := by
+  obtain ⟨kl, hkl, hk⟩ := hkz
+  obtain ⟨bl, hbl, hb⟩ := hbz
+  exact Ttndo.PaddedRoot.of_tensors dim _ K B hK hB hgK hgB kl bl hkl hbl hk hb hdK hdB
+
+open Ptn.C04 Ptn.Ein Ttndo.Demo in
+/-- non-vacuity: the padded root tensors of the demo network (root bond dimension 3) -/
+example : K.SWF ∧ B.SWF ∧ Leg.gKet (Ttndo.ketTree st).id 0 ∈ K.free ∧ Leg.gBra (Ttndo.ketTree st).id 0 ∈ B.free ∧
+    (∃ kl ∈ K.leaves, ∀ ρ : Asg Leg, ρ (Leg.gKet (Ttndo.ketTree st).id 0) ≠ 0 → kl.2 ρ = 0) ∧
+    (∃ bl ∈ B.leaves, ∀ ρ : Asg Leg, ρ (Leg.gBra (Ttndo.ketTree st).id 0) ≠ 0 → bl.2 ρ = 0) ∧
+    0 < dim Ttndo.rootKetLeg ∧ 0 < dim Ttndo.rootBraLeg :=
+  padded_tensors
+
 end Ptn.C16
